@@ -30,7 +30,8 @@ MAGNETS = ("Cuboid", "Cylinder", "CylinderSegment", "Sphere", "Tetrahedron", "Tr
 CURRENTS = ("Circle", "Polyline")
 KINDS = MAGNETS + ("Dipole",) + CURRENTS
 # more cases where the code is most intricate (2500 lines of case distinctions)
-WEIGHT = {("CylinderSegment", "flux"): 2.5, ("CylinderSegment", "circ"): 1.5}
+WEIGHT = {("CylinderSegment", "flux"): 2.5, ("CylinderSegment", "circ"): 1.5,
+          ("TriangularMesh", "flux"): 5.0, ("Tetrahedron", "flux"): 2.0, ("Circle", "circ"): 2.0}
 # rough cost of one field evaluation (seconds per observer), used only to size budgets
 COST = {"Cuboid": 3e-6, "Cylinder": 4e-6, "CylinderSegment": 1.3e-4, "Sphere": 1e-6, "Tetrahedron": 6e-6,
         "TriangularMesh": 6e-5, "Dipole": 1e-6, "Circle": 1e-6, "Polyline": 4e-6}
@@ -64,28 +65,31 @@ def gen_source(rng, kind):
     if rng.random() < 0.15:
         src["rotvec"] = [0.0, 0.0, 0.0]
     pol = list(runit(rng) * rng.uniform(0.1, 1.5))
+    # bodies with clearly different extents along their local axes, in every axis order
+    aniso = [10.0 ** rng.uniform(-0.55, 0.45) for _ in range(3)]
     if kind == "Cuboid":
-        src.update(dimension=[s * rng.uniform(0.3, 1) for _ in range(3)], polarization=pol)
+        src.update(dimension=[s * a for a in aniso], polarization=pol)
     elif kind == "Cylinder":
-        src.update(dimension=[s * rng.uniform(0.3, 1), s * rng.uniform(0.3, 1)], polarization=pol)
+        src.update(dimension=[s * aniso[0], s * aniso[2]], polarization=pol)
     elif kind == "CylinderSegment":
         r2 = s * rng.uniform(0.4, 1)
         r1 = 0.0 if rng.random() < 0.25 else r2 * rng.uniform(0.1, 0.8)
         phi1 = rng.uniform(-360, 300)
         phi2 = min(360.0, phi1 + (360.0 if rng.random() < 0.15 else rng.uniform(25, 340)))
-        src.update(dimension=[r1, r2, s * rng.uniform(0.3, 1), phi1, phi2], polarization=pol)
+        src.update(dimension=[r1, r2, s * aniso[2], phi1, phi2], polarization=pol)
     elif kind == "Sphere":
         src.update(diameter=s * rng.uniform(0.3, 1), polarization=pol)
     elif kind == "Tetrahedron":
         while True:
-            V = np.array([rvec(rng, 0.5 * s) for _ in range(4)])
+            V = np.array([rvec(rng, 0.5 * s) for _ in range(4)]) * np.array(aniso)
             vol = abs(np.linalg.det(V[1:] - V[0])) / 6
-            if vol > 0.02 * s ** 3:
+            if vol > 0.02 * s ** 3 * aniso[0] * aniso[1] * aniso[2]:
                 break
         src.update(vertices=V.tolist(), polarization=pol)
     elif kind == "TriangularMesh":
         npts = rng.randint(5, 9)
-        src.update(points=[rvec(rng, 0.5 * s) for _ in range(npts)], polarization=pol)
+        src.update(points=(np.array([rvec(rng, 0.5 * s) for _ in range(npts)]) * np.array(aniso)).tolist(),
+                   polarization=pol)
     elif kind == "Dipole":
         src.update(moment=list(runit(rng) * rng.uniform(0.1, 10)))
     elif kind == "Circle":
@@ -173,6 +177,29 @@ def local_extent(src):
     raise ValueError(t)
 
 
+def local_bbox(src):
+    """(lo, hi) of the source body in its own frame"""
+    t = src["type"]
+    if t == "Cuboid":
+        h = 0.5 * np.abs(np.array(src["dimension"], dtype=float))
+        return -h, h
+    if t == "Cylinder":
+        d, hh = src["dimension"]
+        h = np.array([0.5 * d, 0.5 * d, 0.5 * hh])
+        return -h, h
+    if t == "CylinderSegment":
+        r2, hh = src["dimension"][1], src["dimension"][2]
+        h = np.array([r2, r2, 0.5 * hh])
+        return -h, h
+    if t in ("Sphere", "Circle"):
+        h = 0.5 * abs(src["diameter"]) * np.ones(3)
+        return -h, h
+    if t in ("Tetrahedron", "Polyline", "TriangularMesh"):
+        V = np.array(src["vertices"] if t != "TriangularMesh" else src["points"], dtype=float)
+        return V.min(axis=0), V.max(axis=0)
+    return -0.3 * np.ones(3), 0.3 * np.ones(3)
+
+
 class FieldRaised(Exception):
     pass
 
@@ -202,7 +229,8 @@ class Scene:
             pos = np.array(o.position, dtype=float).reshape(-1, 3)[-1]
             rot = o.orientation[-1] if len(np.shape(o.orientation.as_quat())) == 2 else o.orientation
             c_loc, rb = local_extent(s)
-            inf = {"type": s["type"], "centre": rot.apply(c_loc) + pos, "rb": rb, "wire": None}
+            inf = {"type": s["type"], "centre": rot.apply(c_loc) + pos, "rb": rb, "wire": None,
+                   "pos": pos, "rot": rot, "bbox": local_bbox(s)}
             if s["type"] == "Circle":
                 inf["wire"] = ("circle", pos, rot.apply([0.0, 0.0, 1.0]), 0.5 * abs(s["diameter"]),
                                float(s["current"]), rot)
@@ -366,6 +394,14 @@ def gen_geom(rng, law, scene, focus, kind, size_factor, place):
         c = inf["centre"] + u * rb * rng.uniform(0.4, 1.1)
     elif place == "away":
         c = inf["centre"] + u * (rb * rng.uniform(1.3, 4) + rho * rng.uniform(0.5, 1.5))
+    elif place == "part":
+        # anywhere in (or just around) the body: upper / lower / left / right parts, not only its centre
+        lo, hi = inf["bbox"]
+        mid, half = 0.5 * (lo + hi), 0.55 * (hi - lo)
+        loc = mid + half * np.array([rng.uniform(-1, 1) for _ in range(3)])
+        c = inf["rot"].apply(loc) + inf["pos"]
+    elif place == "reach":
+        c = inf["centre"]
     elif place == "link":
         # centre next to a point of the conductor, loop plane roughly across the conductor
         W = scene.wire_points()
@@ -374,6 +410,22 @@ def gen_geom(rng, law, scene, focus, kind, size_factor, place):
     else:
         raise ValueError(place)
     rot = rrotvec(rng)
+    if place == "reach":
+        # a long loop that comes within a fraction of the source size of the conductor AND extends to
+        # tens .. ten thousands of source sizes, all of it evaluated in one call
+        W = scene.wire_points()
+        i = rng.randrange(len(W))
+        w = W[i]
+        tdir = W[(i + 1) % len(W)] - W[i - 1]
+        tdir = tdir / (np.linalg.norm(tdir) + 1e-300)
+        n1 = np.cross(tdir, runit(rng))
+        n1 /= np.linalg.norm(n1) + 1e-300
+        n2 = np.cross(tdir, n1)
+        d1, d2 = rb * rng.uniform(0.07, 0.3), rb * rng.uniform(0.07, 0.3)
+        L = rb * 10.0 ** rng.uniform(1.7, 4.3)
+        far1, far2 = runit(rng), runit(rng)
+        V = [w + d1 * n1, w + d2 * n2 * rng.choice([-1, 1]), w + L * far2, w + L * rng.uniform(0.3, 1) * far1]
+        return {"kind": "polygon", "verts": [list(v) for v in V]}
     if place == "link":
         # orient the loop normal close to the local conductor direction so that it links
         W = scene.wire_points()
@@ -512,9 +564,14 @@ def evaluate(case, seconds=1.5, min_evals=2e4):
     cut = touches_magnet(scene, geom)
     which = "B" if law == "flux" else "H"
 
+    # every call of getB/getH contains observers spread over the WHOLE surface / loop (as a user's single
+    # call with all quadrature nodes would), so that a batch-dependent value cannot hide in the
+    # near-only batches of the adaptive refinement
+    anchor = geom.sample(96)
+
     def f(pid, U):
         P, dA = geom.points(pid, U)
-        F = scene.field(which, P)
+        F = scene.field(which, np.concatenate([P, anchor]))[:len(P)]
         return np.einsum("ij,ij->i", F, dA), np.linalg.norm(F, axis=1)
 
     max_evals = int(min(3e6, max(min_evals, seconds / case_cost(case))))
@@ -536,7 +593,7 @@ def evaluate(case, seconds=1.5, min_evals=2e4):
     expected, links = (0.0, [])
     if law == "circ":
         expected, links = threading_current(scene, geom)
-    out.update(value=res.value, expected=expected, err=res.err, scale=scale, links=links)
+    out.update(value=res.value, expected=expected, err=res.err, scale=scale, l1=res.l1, links=links)
     if scale == 0.0:
         # the field vanishes identically on the surface / loop: fine unless a current is threaded
         out["status"] = "ok" if expected == 0.0 else "fail"
@@ -551,7 +608,10 @@ def evaluate(case, seconds=1.5, min_evals=2e4):
     near = sum(float(np.linalg.norm(s["polarization"])) for s in case["sources"] if s["type"] in MAGNETS)
     if which == "H":
         near /= MU0
-    thr = 3.0 * res.err + FLOOR[(law, cut)] * scale + NOISE * near * geom.measure
+    # floors: free space -> relative to the integral of |F.n| or |H.dl| (conditioning of the sum);
+    # through magnets -> relative to max|F| * measure (missed slivers scale with that)
+    floor = FLOOR[(law, cut)] * (scale if cut else res.l1)
+    thr = 3.0 * res.err + floor + NOISE * near * geom.measure
     out["rel"] = abs(res.value - expected) / scale
     out["thr_rel"] = thr / scale
     out["status"] = "fail" if abs(res.value - expected) > thr else "ok"
@@ -599,13 +659,15 @@ def gen_case(rng, law, kinds, coll=False):
         ftype = srcs[case["focus"]]["type"]
         places = ["centre", "surface", "away"]
         if law == "circ" and ftype in CURRENTS:
-            places += ["link", "link", "link"]
+            places += ["link", "link", "link", "reach", "reach"]
         if ftype in MAGNETS:
-            places += ["surface", "centre"]
+            places += ["surface", "part", "part", "part"]
         place = rng.choice(places)
         sf = loguniform(rng, 1e-2, 1e2)
         if ftype in MAGNETS and rng.random() < 0.5:
             sf = loguniform(rng, 0.1, 4)      # surfaces / loops that cut through the magnet boundary
+        if place == "part":
+            sf = loguniform(rng, 0.03, 0.7)
         if place == "away" and sf > 20:
             sf = loguniform(rng, 1e-2, 20)
         gk = rng.choice(["box", "sphere"]) if law == "flux" else rng.choice(["circle", "polygon"])
@@ -743,6 +805,9 @@ def sweep(ctx, n_per_kind, n_coll, seconds, n_special=0, min_evals=2e4):
                     "quadrature_error_rel": float(res["err"] / res["scale"]), "links": res.get("links")}
         ctx.count("field_evaluations", res.get("evals", 0))
         if st == "fail":
+            if any(f["signature"] == signature(case, res) for f in ctx.impl_failures) and len(case["sources"]) == 1:
+                ctx.impl_fail(signature(case, res), "", {})      # same finding again: only counted
+                continue
             # confirm with a four times larger quadrature budget before believing it
             res = evaluate(case, 4 * seconds, 4 * min_evals)
             if res["status"] != "fail":
